@@ -1,14 +1,14 @@
 #!/bin/bash
-# tools/run_seed.sh CNN [tier] -- bring the seeded worktree /tmp/seed_CNN to /repo's current HEAD + the seeded change, run the
-# check of CNN against it, log to /tmp/seedrun_CNN.log
-P=$1; TIER=${2:-quick}; WT=/tmp/seed_$P; LOG=/tmp/seedrun_$P.log
-PATCH=$WT/seed_out/patch.diff; [ -f $PATCH ] || PATCH=/verif/seeded/$P/patch.diff
+# tools/run_seed.sh ID [tier] -- ID = CNN or CNNx (second-round seeds: C06b ...).  Bring the seeded worktree /tmp/seed_ID to /repo's
+# current HEAD + the seeded change, run the check of CNN against it, log to /tmp/seedrun_ID.log
+ID=$1; P=${ID:0:3}; TIER=${2:-quick}; WT=/tmp/seed_$ID; LOG=/tmp/seedrun_$ID.log
+PATCH=$WT/seed_out/patch.diff; [ -f $PATCH ] || PATCH=/verif/seeded/$ID/patch.diff
 cd /verif
 {
   HEAD=$(git -C /repo rev-parse HEAD)
   if [ ! -d $WT ]; then git -C /repo worktree add --detach $WT $HEAD >/dev/null 2>&1; else
     ( cd $WT && git checkout -q -- luna && git checkout -q --detach $HEAD ); fi
-  ( cd $WT && { git apply $PATCH || git apply --3way $PATCH; } && git diff --stat -- luna | tail -2 ) || echo "SEED-PATCH-DOES-NOT-APPLY $P"
+  ( cd $WT && { git apply $PATCH || git apply --3way $PATCH; } && git diff --stat -- luna | tail -2 ) || echo "SEED-PATCH-DOES-NOT-APPLY $ID"
 } > $LOG 2>&1
-VERIF_REPO=$WT VERIF_JOBS=${VERIF_JOBS:-4} timeout 3600 ./check $P --tier $TIER --no-evidence >> $LOG 2>&1
-echo "SEED-RESULT $P exit=$?" >> $LOG
+VERIF_REPO=$WT VERIF_JOBS=${VERIF_JOBS:-4} timeout 5400 ./check $P --tier $TIER --no-evidence >> $LOG 2>&1
+echo "SEED-RESULT $ID exit=$? tier=$TIER" >> $LOG
